@@ -9,7 +9,7 @@ CONSTANTS
   KS = {1, 2}
   AddCs = {0, 9}
   RepCs <- RepCsSmall
-  DescSel = {1,4,5,6,7,9,11,13,14,15,18}
+  DescSel = {1,4,5,6,7,9,11,13,14,15,18,20}
   Readers = {}
   ImplicitModes <- ImplicitRb
 INVARIANT InvWellFormed
